@@ -118,6 +118,8 @@ package builder
 //@   props C09 C10
 //@   at call Put#1 ghostset execsteps[6] = 1
 //@   ensures a-reported-digest-was-written-to-the-cas: r1 == nil ==> execsteps(6) == 1
+//@   at call newSectionReadCloser#1 assert the-upload-is-limited-to-the-bytes-the-digest-was-computed-over: arg1 == 0 && arg2 == sizeBytes
+//@   at call NewSectionReader#1 assert the-digest-is-computed-over-the-whole-file-as-measured: arg1 == 0 && arg2 == sizeBytes
 
 // Every declared output below this directory is visited: every subdirectory
 // that holds declared outputs is entered (or found absent), also when the
